@@ -632,7 +632,7 @@ type MetaInitCase struct {
 
 func TestC03MetaInit(t *testing.T) {
 	common.Run(t, "C03", "C03MetaInit", func(t *rapid.T) MetaInitCase {
-		return MetaInitCase{Kind: rapid.SampledFrom([]string{"empty", "zeros", "prefix", "prefix", "holes", "holes", "complete", "garbage"}).Draw(t, "kind"),
+		return MetaInitCase{Kind: rapid.SampledFrom([]string{"empty", "zeros", "prefix", "prefix", "holes", "holes", "complete", "garbage", "nobuckets", "nobuckets"}).Draw(t, "kind"),
 			Len: rapid.IntRange(1, 40000).Draw(t, "len"), Mask: rapid.Uint32().Draw(t, "mask")}
 	}, func(c MetaInitCase) (res common.Result) {
 		// a genuine, complete tmp file as bolt writes it
@@ -678,6 +678,20 @@ func TestC03MetaInit(t *testing.T) {
 			}
 		case "complete":
 			tmp = full
+		case "nobuckets":
+			// what bolt itself has fsynced right after creating the file, before the transaction that
+			// creates the buckets commits: a valid, empty database
+			bp := filepath.Join(src, "empty.db")
+			bdb, err := bbolt.Open(bp, 0o600, nil)
+			if err != nil {
+				res.Fail = common.Failf("harness", "%v", err)
+				return
+			}
+			bdb.Close()
+			if tmp, err = os.ReadFile(bp); err != nil {
+				res.Fail = common.Failf("harness", "%v", err)
+				return
+			}
 		default:
 			tmp = kit.Fill(c.Len, byte(c.Mask), 3, 3)
 		}
@@ -725,6 +739,91 @@ func TestC03MetaInit(t *testing.T) {
 		v, _ := w.GetUint64([]byte("CurrentTerm"))
 		if f != 500 || l != 500 || v != 3 {
 			res.Fail = common.Failf("effects-not-durable", "after reopen first=%d last=%d term=%d, want 500 500 3", f, l, v)
+		}
+		return
+	})
+}
+
+// ---- the metadata database cannot even be stat'ed (an I/O error below the MetaStore interface, here
+// ELOOP from a self-referencing symlink): Open must fail, not start over with an empty log, and
+// must leave the directory as it found it.
+
+type MetaStatCase struct {
+	Sizes []int `json:"sizes"`
+	Seg   int   `json:"seg"`
+}
+
+func TestC11MetaStat(t *testing.T) {
+	common.Run(t, "C11", "C11MetaStat", func(t *rapid.T) MetaStatCase {
+		c := MetaStatCase{Seg: rapid.SampledFrom([]int{128, 512, 4096}).Draw(t, "seg")}
+		for i := 0; i < rapid.IntRange(1, 12).Draw(t, "n"); i++ {
+			c.Sizes = append(c.Sizes, rapid.SampledFrom([]int{10, 60, 100}).Draw(t, "sz"))
+		}
+		return c
+	}, func(c MetaStatCase) (res common.Result) {
+		dir, err := os.MkdirTemp("", "verif-metastat-")
+		if err != nil {
+			res.Fail = common.Failf("harness", "%v", err)
+			return
+		}
+		defer os.RemoveAll(dir)
+		cfg := kit.Cfg{SegSize: c.Seg, Dir: dir}
+		w, err := cfg.Open()
+		if err != nil {
+			res.Fail = common.Failf("harness", "%v", err)
+			return
+		}
+		m := refmodel.NewLogModel()
+		for i, sz := range c.Sizes {
+			l := kit.EntrySpec{DataLen: sz, Seed: uint8(i)}.Make(uint64(100+i), 0)
+			if err := w.StoreLogs([]*raft.Log{l}); err != nil {
+				res.Fail = common.Failf("harness", "%v", err)
+				return
+			}
+			m.Append([]*raft.Log{l})
+			kit.Barrier(w)
+		}
+		w.Close()
+		before, _ := filepath.Glob(filepath.Join(dir, "*.wal"))
+		db := filepath.Join(dir, "wal-meta.db")
+		parked := filepath.Join(dir, "parked-meta")
+		if err := os.Rename(db, parked); err != nil {
+			res.Fail = common.Failf("harness", "%v", err)
+			return
+		}
+		if err := os.Symlink("wal-meta.db", db); err != nil {
+			res.Fail = common.Failf("harness", "%v", err)
+			return
+		}
+		res.NonTrivial = true
+		w2, oerr := cfg.Open()
+		if oerr == nil {
+			f, _ := w2.FirstIndex()
+			l, _ := w2.LastIndex()
+			w2.Close()
+			res.Fail = common.Failf("silent-loss/meta-stat-error", "wal-meta.db cannot be stat'ed (ELOOP) yet Open succeeded and presents the log [%d,%d]; %d entries [%d,%d] had been acknowledged", f, l, m.Len(), m.First, m.Last)
+			return
+		}
+		// put things back: everything must still be there
+		os.Remove(db)
+		os.Remove(db + ".tmp")
+		if err := os.Rename(parked, db); err != nil {
+			res.Fail = common.Failf("harness", "%v", err)
+			return
+		}
+		after, _ := filepath.Glob(filepath.Join(dir, "*.wal"))
+		if len(after) != len(before) {
+			res.Fail = common.Failf("failed-open-deleted-files", "the failed Open (%v) changed the segment files: before %v, after %v", oerr, before, after)
+			return
+		}
+		w3, err := cfg.Open()
+		if err != nil {
+			res.Fail = common.Failf("reopen-err", "Open after the metadata database became reachable again = %v (the failed Open was: %v)", err, oerr)
+			return
+		}
+		defer w3.Close()
+		if sig, msg := kit.CheckAgainst(w3, m, nil); sig != "" {
+			res.Fail = common.Failf("loss-after-failed-open/"+sig, "%s", msg)
 		}
 		return
 	})
